@@ -19,7 +19,9 @@ vars == <<ty, env, depth, last>>
 \* ------------------------------------------------------------------ leaves and pools per family
 LeavesOf(fam) ==
   CASE fam = "prim"   -> {TString, TNumber, TBoolean, TNull, TUndef, Prim("void"), TAny, Prim("unknown"), TNever,
-                          LS("a"), LS(""), LN("1"), LN("0"), LB(TRUE), LB(FALSE)}
+                          LS("a"), LS(""), LN("1"), LN("0"), LB(TRUE), LB(FALSE),
+                          \* numeric literals that are not small integers
+                          LN("0.5"), LN("3.14159"), LN("-1"), LN("1000000")}
     [] fam = "object" -> {TString, TNumber, TNull, LS("x"), LN("1"), Uni(<<TString, TNull>>),
                           \* a declared property whose type keeps more than the index signature's value type does
                           Obj(<<Prop("o", Obj(<<Prop("x", TNumber, FALSE), Prop("y", TNumber, FALSE)>>, <<>>), FALSE)>>,
